@@ -1,0 +1,58 @@
+//go:build verif
+
+package main
+
+// Hook for the external verification harness (build tag `verif` only; the file is not part of a normal build).
+//
+// With ESCALATOR_VERIF_ASSEMBLE set to a file name the program parses its command line as usual, runs the two
+// assembly steps of main that are ordinary functions - setupNodeGroups and setupCloudProvider - writes what they
+// produced to that file as JSON and exits, before any Kubernetes or cloud client is built.
+
+import (
+	"encoding/json"
+	"os"
+
+	"github.com/alecthomas/kingpin/v2"
+	"github.com/atlassian/escalator/pkg/cloudprovider"
+	"github.com/atlassian/escalator/pkg/controller"
+)
+
+type verifAssembled struct {
+	MasterDryMode bool                            `json:"master_dry_mode"`
+	NodeGroups    []controller.NodeGroupOptions   `json:"node_groups"`
+	ProviderID    string                          `json:"provider_id"`
+	Cloud         []cloudprovider.NodeGroupConfig `json:"cloud"`
+	BuilderType   string                          `json:"builder_type"`
+}
+
+func init() {
+	out := os.Getenv("ESCALATOR_VERIF_ASSEMBLE")
+	if out == "" {
+		return
+	}
+	kingpin.Parse()
+	nodegroups, err := setupNodeGroups()
+	if err != nil {
+		os.Stderr.WriteString("verif-assemble: setupNodeGroups: " + err.Error() + "\n")
+		os.Exit(3)
+	}
+	a := verifAssembled{MasterDryMode: *drymode, NodeGroups: nodegroups}
+	switch b := setupCloudProvider(nodegroups).(type) {
+	case cloudProviderBuilder:
+		a.BuilderType = "cloudProviderBuilder"
+		a.ProviderID = b.ProviderOpts.ProviderID
+		a.Cloud = b.ProviderOpts.NodeGroupConfigs
+	default:
+		a.BuilderType = "other"
+	}
+	buf, err := json.Marshal(a)
+	if err != nil {
+		os.Stderr.WriteString("verif-assemble: " + err.Error() + "\n")
+		os.Exit(3)
+	}
+	if err := os.WriteFile(out, buf, 0o644); err != nil {
+		os.Stderr.WriteString("verif-assemble: " + err.Error() + "\n")
+		os.Exit(3)
+	}
+	os.Exit(0)
+}
